@@ -21,3 +21,5 @@ MUSTFAIL = False
 
 FUNCTIONS = FUNCTIONS + ['soupsieve.css_match.CSSMatch.match_range', 'soupsieve.css_match._DocumentNav.get_attribute_by_name']
 SHARDS = {'match_range': 8, 'parse_value': 8, 'match_selectors': 16, 'match_nth': 4}
+
+FUNCTIONS = FUNCTIONS + [q for q in KIDS if q not in FUNCTIONS]
